@@ -24,9 +24,14 @@ type c15lExp struct {
 	exported, shuts, flushes, afterSD int
 	bodies                           map[string]int // body of every exported record (bodies are unique per Emit)
 	honourCtx                        bool           // Shutdown / ForceFlush report an ended context (after doing their work)
+	provDown                         *bool          // (concurrent drivers) a provider Shutdown has returned nil
+	afterProvDown                    int            // Export calls that started after that
 }
 
 func (e *c15lExp) Export(_ context.Context, rs []Record) error {
+	if e.provDown != nil && *e.provDown {
+		e.afterProvDown++
+	}
 	e.exported += len(rs)
 	if e.bodies == nil {
 		e.bodies = map[string]int{}
@@ -253,6 +258,8 @@ func c15lConc(variant string, threads [][]string, res *string) func(x *sched.Exe
 		case "batch(E)":
 			proc = NewBatchProcessor(exp, WithMaxQueueSize(2), WithExportMaxBatchSize(1))
 		}
+		provDown := false
+		exp.provDown = &provDown
 		lp := NewLoggerProvider(WithProcessor(proc))
 		old := lp.Logger("old")
 		nilSD := make([]int, len(threads))
@@ -266,6 +273,7 @@ func c15lConc(variant string, threads [][]string, res *string) func(x *sched.Exe
 					case "Shutdown":
 						if lp.Shutdown(context.Background()) == nil {
 							nilSD[ti]++
+							provDown = true
 						}
 					case "Flush":
 						_ = lp.ForceFlush(context.Background())
@@ -286,6 +294,16 @@ func c15lConc(variant string, threads [][]string, res *string) func(x *sched.Exe
 		}
 		if n > 1 {
 			x.Fail("C15|shut-down-more-than-once|logs|concurrent", "processor/exporter shut down %d times", n)
+		}
+		anyNil := 0
+		for _, k := range nilSD {
+			anyNil += k
+		}
+		if anyNil > 0 && n != 1 {
+			x.Fail("C15|not-shut-down-after-successful-Shutdown|logs|concurrent", "a LoggerProvider.Shutdown returned nil, the %s was shut down %d times", map[bool]string{true: "processor", false: "exporter"}[variant == "rec"], n)
+		}
+		if exp.afterProvDown > 0 {
+			x.Fail("C15|export-after-Shutdown-returned|logs|concurrent", "%d Export call(s) started after a LoggerProvider.Shutdown had returned nil", exp.afterProvDown)
 		}
 		*res = fmt.Sprintf("shuts=%d exported=%d emits=%d", n, exp.exported, rec.emits)
 		_ = lp.Shutdown(context.Background())
